@@ -714,9 +714,12 @@ func (c *CoreRun) exec(l map[string]any) string {
 		c.r.S.WaitUntil(stepTimeout, func(p map[string]string, d map[string]bool) bool { return d["scr"] || p["scr"] != "" })
 	case "ScrapeRet":
 		c.setHigh()
-		if low, _ := l["low"].(bool); low {
-			for vb := range c.slog {
-				c.w.SetHigh(vb, 0)
+		// the vBuckets whose answer is stale (a high seqno below the tracked position): any subset
+		if low, _ := l["low"].([]any); len(low) > 0 {
+			for _, v := range low {
+				if vb := num(v) - 1; vb >= 0 && vb < len(c.slog) {
+					c.w.SetHigh(vb, 0)
+				}
 			}
 		}
 		if !c.r.S.Release("scr", nil) {
